@@ -921,6 +921,10 @@ def tokenize(content: str, lenient: bool = False) -> tuple[list[Token], list[Any
                     # Convert to int or float, but preserve raw lexeme for fidelity (GH#66)
                     if "." in matched_text or "e" in matched_text.lower():
                         value = float(matched_text)
+                        if value in (float("inf"), float("-inf")):
+                            # 1e400 would silently become inf (and -inf is not even readable
+                            # again): refuse the literal instead of corrupting the value
+                            raise LexerError(f"Numeric literal out of range: {matched_text}", line, column, "E005")
                     else:
                         try:
                             value = int(matched_text)
